@@ -137,7 +137,10 @@ theorem INTT_gen_buf (fuel : Nat) (hf : 64 ≤ fuel) (hp : Heap) (self : NTT_Gol
     K N NC nphase nblock true extend hK1 hK hN hKs hos hNC1 hNNC8 hext31 hcache hnb
   unfold NTT_INTT
   rw [hc0, hs0]
-  simp only [Bool.or_false, Bool.false_eq_true, if_false, hdst, bind_some_id]
+  simp only [Bool.or_false, Bool.false_eq_true, if_false, bind_some_id]
+  -- the destination selection, however it is written (if / else on a local, `?:` on `dst != NULL`, …)
+  ptr_norm at hdst ⊢
+  simp only [hdst]
   exact h
 
 /-! ### field-level: the transform property for the caller-buffer call shape -/
